@@ -136,6 +136,14 @@ def capacity_chunk(kind_n):
             m = ProofExp(axioms=axioms)
             m.add_claim(axioms[-1])
             m.add_proof_expression(m.load_axiom(axioms[-1]))
+        elif kind == 'inst_len':
+            # one Instantiate with n plugs (its length is one byte)
+            goal = P.Implies(P.MetaVar(0), P.Implies(P.MetaVar(1), P.MetaVar(0)))
+            m = ProofExp(axioms=[P.Symbol('a')], claims=[goal])
+            m.add_proof_expression(m.instantiate(m.prop1(), {k: (P.MetaVar(k) if k < 2 else P.EVar(k % 250)) for k in range(n)}))
+        elif kind == 'constraint_len':
+            # a metavariable with n freshness constraints (list length is one byte)
+            m = ProofExp(axioms=[P.Implies(P.MetaVar(0, e_fresh=tuple(P.EVar(i % 256) for i in range(n))), P.Symbol('a'))])
         elif kind == 'memo':
             # n distinct small patterns, each built twice (as plugs for metavariables the conclusion does not mention):
             # n candidates for memory slots when the optimising stack is used; 2 axioms occupy slots already
@@ -171,7 +179,7 @@ def capacity_chunk(kind_n):
     if len(ax) != len(want) or not all(sm.unify(w, d) for w, d in zip(want, ax)):
         out['viol'].append(({'kind': 'capacity_ambiguous', 'what': kind, 'n': n},
                             f'{kind}={n}: the module was encoded but the decoded axioms do not correspond injectively to the declared ones (id wrapped?)'))
-    if kind == 'memo':
+    if kind in ('memo', 'inst_len'):
         pr = [t for k, t in j if k == 'proved']
         if len(pr) != 1 or rm.show(pr[0]) != rm.show(bridge.expand(m.get_claims()[0])):
             out['viol'].append(({'kind': 'capacity_ambiguous', 'what': kind, 'n': n}, f'memo={n}: the optimised proof does not prove the claim'))
@@ -218,7 +226,8 @@ def main(argv=None) -> int:
                 agg[k] = agg.get(k, 0) + v
     caps = [('symbols', n) for n in (1, 2, 255, 256, 257, 258, 300)] + [('evar_id', n) for n in (255, 256, 300)] + \
            [('metavar_id', n) for n in (255, 256)] + [('memory', n) for n in (255, 256, 257, 258)] + \
-           [('memo', n) for n in (3, 200, 253, 254, 255, 256, 257, 300, 400)]
+           [('memo', n) for n in (3, 200, 253, 254, 255, 256, 257, 300, 400)] + \
+           [('inst_len', n) for n in (2, 254, 255, 256, 257)] + [('constraint_len', n) for n in (1, 255, 256, 257)]
     refused, encoded = [], []
     for (kind, n), out in zip(caps, par.pmap(capacity_chunk, caps)):
         agg['capacity_cases'] = agg.get('capacity_cases', 0) + 1
